@@ -23,6 +23,7 @@ pub fn generate(seed: u64, tier: Tier) -> Case {
         "valid", "valid", "valid", "valid", "error", "vftable_name", "vftable_name",
         "vftable_name", "registry_collision", "disk_collision", "graph", "graph",
         "shadowed_generated_name", "generated_name_cycle", "twin_modules", "exhaustive_small",
+        "override_near_miss",
     ]);
     let mut params = Params::default();
     let (project, mut world) = match family {
@@ -58,6 +59,13 @@ pub fn generate(seed: u64, tier: Tier) -> Case {
                 cfg.p_vftable = 90;
                 cfg.max_items = cfg.max_items.max(2);
             }
+            if family == "override_near_miss" {
+                cfg.p_vftable = 90;
+                cfg.p_base = 90;
+                cfg.p_enum = 0;
+                cfg.p_extern = 0;
+                cfg.max_items = cfg.max_items.max(4);
+            }
             let mut p = gen_valid(&mut rng, &cfg, ptr);
             match family {
                 "valid" => params.intended_valid = true,
@@ -82,6 +90,11 @@ pub fn generate(seed: u64, tier: Tier) -> Case {
                 }
                 "registry_collision" => {
                     user_defined_vftable_name(&mut rng, &mut p);
+                }
+                "override_near_miss" => {
+                    if !near_miss_override(&mut rng, &mut p) {
+                        params.intended_valid = true;
+                    }
                 }
                 "disk_collision" => {}
                 "exhaustive_small" => {
@@ -152,6 +165,19 @@ pub fn generate(seed: u64, tier: Tier) -> Case {
             params.intended_valid = false;
         }
     }
+    // Rebuild in place: some builds start in the output directory an earlier build of the same
+    // input left behind (complete after a success, half-finished after a failure). The result
+    // is a function of the input set, not of what the output directory held.
+    if family != "exhaustive_small" && rng.chance(1, 5) {
+        for bi in 1..builds.len() {
+            if rng.chance(1, 2) {
+                params.chain.push((bi, bi - 1));
+            }
+        }
+        if !params.chain.is_empty() {
+            params.notes.push("rebuild_in_place".into());
+        }
+    }
     Case {
         property: "C09".into(),
         family: family.into(),
@@ -166,6 +192,28 @@ pub fn generate(seed: u64, tier: Tier) -> Case {
 pub fn inject_error(rng: &mut Rng, p: &mut Project) {
     let m = rng.below(p.modules.len());
     let idx = p.items.len();
+    if rng.chance(1, 4) {
+        // An error that only shows when the module's file is written: backend text that is
+        // not Rust, or Rust that cannot be pretty-printed. The file is written as it is and
+        // the build reports the error; what is on disk afterwards is a half-finished output.
+        let text = (*rng.pick(&[
+            "pub fn helper( -> u32 { 0 }",
+            "pub const LIMIT: u32;",
+            "}}} not rust at all {{{",
+            "pub struct Open {",
+        ]))
+        .to_string();
+        let k = p.modules[m].backends.len();
+        let as_prologue = rng.chance(1, 2);
+        p.modules[m].backends.push(crate::project::BackendBlock {
+            name: "rust".into(),
+            prologue: as_prologue.then(|| text.clone()),
+            epilogue: (!as_prologue).then(|| text.clone()),
+            braced: rng.chance(1, 2),
+        });
+        p.modules[m].order.push(Decl::Backend(k));
+        return;
+    }
     let kind = rng.below(4);
     let fields = match kind {
         0 => vec![field("a", Ty::Name(format!("Undefined{}", rng.below(100))))],
@@ -201,6 +249,130 @@ pub fn inject_error(rng: &mut Rng, p: &mut Project) {
     });
     let pos = rng.below(p.modules[m].order.len() + 1);
     p.modules[m].order.insert(pos, Decl::Item(idx));
+}
+
+/// First-base chain of a type item (nearest first).
+fn first_bases(p: &Project, mut i: usize) -> Vec<usize> {
+    let mut out = vec![];
+    loop {
+        let ItemKind::Type { fields, .. } = &p.items[i].kind else {
+            break;
+        };
+        match fields.first() {
+            Some(Field { base: true, ty: Ty::Item(b), .. }) if !out.contains(b) && out.len() < 64 => {
+                out.push(*b);
+                i = *b;
+            }
+            _ => break,
+        }
+    }
+    out
+}
+
+/// An override that is almost the function it overrides: a derived type re-declares the slots
+/// of its first base (it has to, verbatim), and one of them differs in one respect — the return
+/// type points at a relative of the base function's pointee, a parameter changed, the receiver
+/// flipped, the name changed. Whatever the verdict on such a table is, it is the same under
+/// every resolution order.
+pub fn near_miss_override(rng: &mut Rng, p: &mut Project) -> bool {
+    let derived: Vec<(usize, usize)> = (0..p.items.len())
+        .filter_map(|y| {
+            let ItemKind::Type { vftable: Some(_), .. } = &p.items[y].kind else {
+                return None;
+            };
+            let x = *first_bases(p, y).first()?;
+            let n = p.items[x].vslots.as_ref()?.iter().filter(|f| !f.name.starts_with("_vfunc_")).count();
+            (n > 0).then_some((y, x))
+        })
+        .collect();
+    if derived.is_empty() {
+        return false;
+    }
+    let (y, x) = *rng.pick(&derived);
+    let slots: Vec<String> = p.items[x]
+        .vslots
+        .as_ref()
+        .unwrap()
+        .iter()
+        .filter(|f| !f.name.starts_with("_vfunc_"))
+        .map(|f| f.name.clone())
+        .collect();
+    let name = rng.pick(&slots).clone();
+    // (B, D): D has B on its first-base chain.
+    let mut pairs: Vec<(usize, usize)> = vec![];
+    for d in 0..p.items.len() {
+        if matches!(p.items[d].kind, ItemKind::Type { .. }) {
+            for b in first_bases(p, d) {
+                pairs.push((b, d));
+            }
+        }
+    }
+    let types: Vec<usize> = (0..p.items.len())
+        .filter(|i| matches!(p.items[*i].kind, ItemKind::Type { .. }))
+        .collect();
+    let mode = rng.below(6);
+    let mutable = rng.chance(1, 2);
+    let ptr_to = |i: usize| if mutable { Ty::Item(i).mptr() } else { Ty::Item(i).cptr() };
+    // Every copy of the slot (the base's declaration and whatever re-declares it).
+    let for_each_copy = |p: &mut Project, f: &mut dyn FnMut(usize, &mut Func)| {
+        for i in 0..p.items.len() {
+            let it = &mut p.items[i];
+            if let ItemKind::Type { vftable: Some(v), .. } = &mut it.kind {
+                for g in v.funcs.iter_mut().filter(|g| g.name == name) {
+                    f(i, g);
+                }
+            }
+            if let Some(vs) = &mut it.vslots {
+                for g in vs.iter_mut().filter(|g| g.name == name) {
+                    f(i, g);
+                }
+            }
+        }
+    };
+    match mode {
+        0 | 1 if !pairs.is_empty() => {
+            // Return type: the base returns a pointer to B, the override a pointer to D.
+            let (b, d) = *rng.pick(&pairs);
+            let (b, d) = if mode == 1 { (d, b) } else { (b, d) };
+            for_each_copy(p, &mut |i, g| g.ret = Some(if i == y { ptr_to(d) } else { ptr_to(b) }));
+        }
+        2 if !pairs.is_empty() => {
+            // The same in a parameter.
+            let (b, d) = *rng.pick(&pairs);
+            for_each_copy(p, &mut |i, g| {
+                let t = if i == y { ptr_to(d) } else { ptr_to(b) };
+                if g.args.is_empty() {
+                    g.args.push(("rel".into(), t));
+                } else {
+                    g.args[0].1 = t;
+                }
+            });
+        }
+        3 => {
+            let other = if types.is_empty() { Ty::Prim("u64") } else { ptr_to(*rng.pick(&types)) };
+            for_each_copy(p, &mut |i, g| {
+                if i == y {
+                    g.ret = match &g.ret {
+                        Some(t) if *t == other => None,
+                        _ => Some(other.clone()),
+                    };
+                }
+            });
+        }
+        4 => for_each_copy(p, &mut |i, g| {
+            if i == y {
+                g.recv = g.recv.map(|r| !r);
+            }
+        }),
+        _ => for_each_copy(p, &mut |i, g| {
+            if i == y {
+                g.name = format!("{}_renamed", g.name);
+            }
+        }),
+    }
+    // The referenced relatives must be nameable from every module that holds a copy: the
+    // printer derives the `use` lines from the mentions, nothing to do here.
+    true
 }
 
 pub fn field(name: &str, ty: Ty) -> Field {
